@@ -158,9 +158,10 @@ structure RdStep (s s' : State) : Prop where
           (s.conf.maxReaders ≠ 0 → s'.readers.length ≤ s.conf.maxReaders)
   nodup : s.readers.Nodup → s'.readers.Nodup
   odS : (s'.odSrc = s.odSrc ∧ s'.tSrcClose = s.tSrcClose) ∨
-        (s.conf.odStatic = true ∧ s.odSrc = .closing ∧ s'.odSrc = .ready ∧ s'.tSrcClose = false)
+        (s.conf.odStatic = true ∧ s.odSrc = .closing ∧ s'.odSrc = .ready ∧ s'.tSrcClose = false ∧ s'.readers ≠ [])
   odP : (s'.odPub = s.odPub ∧ s'.tPubClose = s.tPubClose) ∨
-        (s.conf.odStatic = false ∧ s.conf.odPub = true ∧ s.odPub = .closing ∧ s'.odPub = .ready ∧ s'.tPubClose = false)
+        (s.conf.odStatic = false ∧ s.conf.odPub = true ∧ s.odPub = .closing ∧ s'.odPub = .ready ∧ s'.tPubClose = false ∧
+          s'.readers ≠ [])
   grow : s'.readers ≠ s.readers →
         (s.conf.odStatic = true → s'.odSrc ≠ .closing) ∧
         (s.conf.odStatic = false → s.conf.odPub = true → s'.odPub ≠ .closing)
@@ -170,6 +171,11 @@ theorem RdStep.refl (s : State) : RdStep s s := by constructor <;> grind
 theorem RdStep.trans {a b c : State} (h1 : RdStep a b) (h2 : RdStep b c) : RdStep a c := by
   obtain ⟨a1, a2, a3, a4, a5, a6, a7, a8, a9, a10, a11, a12, a13, a14, a15, a16, a17, a18, a19, a20, a21, a22, a23, a24, a25⟩ := h1
   obtain ⟨b1, b2, b3, b4, b5, b6, b7, b8, b9, b10, b11, b12, b13, b14, b15, b16, b17, b18, b19, b20, b21, b22, b23, b24, b25⟩ := h2
+  have hne : b.readers ≠ [] → c.readers ≠ [] := by
+    intro h1 h2
+    cases hb : b.readers with
+    | nil => exact h1 hb
+    | cons x xs => have := b20 x (by rw [hb]; exact List.mem_cons_self); rw [h2] at this; cases this
   constructor <;> grind
 
 def regAfter (r : Nat) (s : State) : List (Nat × Nat) :=
@@ -208,6 +214,7 @@ theorem addReaderPost_s (rid r : Nat) (w : W) : (addReaderPost rid r w).s =
 
 theorem addReaderPost_rd (rid r : Nat) (w : W) : RdStep w.s (addReaderPost rid r w).s := by
   rw [addReaderPost_s]
+  have hne : w.s.readers ++ [r] ≠ [] := by simp
   split
   · constructor <;> grind
   split
